@@ -43,7 +43,12 @@ class Config:
         # argument-type variant: False = plain Python numbers; True =
         # integers as numpy.int64; or a comma-separated string of flags:
         #   int64 / array0  integers as numpy.int64 / 0-d numpy arrays
+        #   uint64 / uint8 / uint32a   unsigned numpy scalars / 0-d uint32 array
         #   cF / cN / cA    step costs as Fraction / numpy.float64 / 0-d array
+        #   sub             the object is built from a trivial user subclass
+        #   base            HRevolve via RevolveCheckpointSchedule + hrevolve()
+        #   twin            an equal object is built first and asked for one
+        #                   action (and stays alive) before this one is driven
         # (a cost given as a string "p/q" is that exact rational: only
         # meaningful together with cF)
         self.np = np
@@ -52,7 +57,7 @@ class Config:
         d = {"cls": self.cls, "params": list(self.params), "N": self.N,
              "passes": self.passes}
         if self.np:
-            d["np"] = True
+            d["np"] = self.np
         return d
 
     @staticmethod
@@ -74,7 +79,34 @@ class Config:
         return (self.cls, self.params, self.N, self.passes, self.np)
 
 
+class ArgumentMutated(Exception):
+    pass
+
+
+class VariantUnavailable(Exception):
+    """The argument/construction variant does not exist in this tree."""
+
+
 def build(cfg):
+    """Construct the real object (see _build) and make sure the constructor
+    left the caller's (shared, possibly mutable) cost objects alone: if it
+    updated one in place, the next schedule built from the same objects would
+    silently be planned for other costs."""
+    obj = _build(cfg)
+    bad = [(k, v, o) for k, (v, o) in
+           ((k, (k[1], o)) for k, o in list(_COST_OBJECTS.items()))
+           if not (float(o) == float(v))]
+    if bad:
+        for k, _v, _o in bad:
+            del _COST_OBJECTS[k]       # hand out a sound object next time
+        k, v, o = bad[0]
+        raise ArgumentMutated(
+            f"constructing {cfg!r} changed a cost argument of the caller in "
+            f"place: the object passed for the value {v} now holds {o!r}")
+    return obj
+
+
+def _build(cfg):
     """Construct the real object.  Parameter conventions:
     Multistage: (ram, disk, trajectory)      Mixed: (snapshots, storage)
     TwoLevel: (period, binomial_snapshots, storage, trajectory)
@@ -83,21 +115,26 @@ def build(cfg):
     """
     c, p, N = cfg.cls, cfg.params, cfg.N
     fl = cfg.flags()
+    A = SUB if "sub" in fl else API
     if fl & {"cF", "cN", "cA"} and c in REVOLVE_FAMILY:
         k = 2 if c == "HRevolve" else 1
         p = tuple(p[:k]) + tuple(typed_cost(x, fl) for x in p[k:k + 4]) \
             + tuple(p[k + 4:])
-    if fl & {"int64", "array0"}:
+    if fl & {"int64", "array0", "uint64", "uint8", "uint32a"}:
         import numpy
-        conv = numpy.array if "array0" in fl else numpy.int64
+        conv = (numpy.array if "array0" in fl else
+                numpy.uint64 if "uint64" in fl else
+                numpy.uint8 if "uint8" in fl else
+                (lambda x: numpy.array(x, dtype=numpy.uint32))
+                if "uint32a" in fl else numpy.int64)
         N = conv(N)
         p = tuple(conv(x) if isinstance(x, int)
                   and not isinstance(x, bool) else x for x in p)
     with common.quiet():
         if c == "SingleMemory":
-            return API.SingleMemoryStorageSchedule()
+            return A.SingleMemoryStorageSchedule()
         if c == "SingleDiskCopy":
-            return API.SingleDiskStorageSchedule(move_data=False)
+            return A.SingleDiskStorageSchedule(move_data=False)
         if c == "SingleDiskMove":
             # p[0] (optional): another truthy flag value a caller may pass
             flag = True
@@ -106,27 +143,80 @@ def build(cfg):
             elif p and p[0] == "numpy":
                 import numpy
                 flag = numpy.bool_(True)
-            return API.SingleDiskStorageSchedule(move_data=flag)
+            return A.SingleDiskStorageSchedule(move_data=flag)
         if c == "NoneSchedule":
-            return API.NoneCheckpointSchedule()
+            return A.NoneCheckpointSchedule()
         if c == "Multistage":
-            return API.MultistageCheckpointSchedule(N, p[0], p[1],
+            return A.MultistageCheckpointSchedule(N, p[0], p[1],
                                                     trajectory=p[2])
         if c == "Mixed":
-            return API.MixedCheckpointSchedule(N, p[0], storage=ST[p[1]])
+            return A.MixedCheckpointSchedule(N, p[0], storage=ST[p[1]])
         if c == "TwoLevel":
-            return API.TwoLevelCheckpointSchedule(
+            return A.TwoLevelCheckpointSchedule(
                 p[0], p[1], binomial_storage=ST[p[2]],
                 binomial_trajectory=p[3])
         if c == "Revolve":
-            return API.Revolve(N, p[0], *p[1:])
+            return A.Revolve(N, p[0], *p[1:])
         if c == "DiskRevolve":
-            return API.DiskRevolve(N, p[0], *p[1:])
+            return A.DiskRevolve(N, p[0], *p[1:])
         if c == "PeriodicDiskRevolve":
-            return API.PeriodicDiskRevolve(N, p[0], *p[1:])
+            return A.PeriodicDiskRevolve(N, p[0], *p[1:])
+        if c == "HRevolve" and "base" in fl:
+            # the documented base class fed with an hrevolve() sequence
+            # directly (what HRevolve.__init__ does); unavailable -> skipped
+            try:
+                from checkpoint_schedules.hrevolve_sequences import hrevolve
+                base = common.repo_mod("hrevolve").RevolveCheckpointSchedule
+                seq = list(hrevolve(N - 1, (p[0], p[1]), [0, p[4]],
+                                    [0, p[5]], p[2], p[3]))
+            except (ImportError, AttributeError, TypeError) as e:
+                raise VariantUnavailable(str(e))
+            return base(N, p[0], p[1], seq)
         if c == "HRevolve":
-            return API.HRevolve(N, p[0], p[1], *p[2:])
+            return A.HRevolve(N, p[0], p[1], *p[2:])
     raise ValueError(c)
+
+
+def _user_subclass(name, cls):
+    """`class UserX(X)` with value semantics, as a user writes it who keeps
+    schedules in sets / dict keys or compares configurations: equal
+    constructor arguments -> equal and equally hashed objects."""
+    def __init__(self, *a, **k):
+        self._user_key = (type(self).__name__, repr(a),
+                          repr(sorted(k.items())))
+        cls.__init__(self, *a, **k)
+
+    def __eq__(self, other):
+        return type(other) is type(self) and \
+            other._user_key == self._user_key
+
+    def __hash__(self):
+        return hash(self._user_key)
+    return type("User" + name, (cls,), {"__init__": __init__,
+                                        "__eq__": __eq__,
+                                        "__hash__": __hash__})
+
+
+class _SubAPI:
+    """The schedule classes seen through a small user subclass
+    (`class MySchedule(DiskRevolve): ...` with value-based __eq__/__hash__,
+    see _user_subclass): ordinary use of a class
+    hierarchy rooted in an ABC, and a place where per-class state set up by
+    `__init_subclass__` or class keywords silently reverts to a default."""
+
+    def __init__(self):
+        self._cache = {}
+
+    def __getattr__(self, name):
+        cls = getattr(API, name)
+        if isinstance(cls, type) and issubclass(cls, API.CheckpointSchedule):
+            if name not in self._cache:
+                self._cache[name] = _user_subclass(name, cls)
+            return self._cache[name]
+        return cls
+
+
+SUB = _SubAPI()
 
 
 def exact_cost(x):
@@ -137,17 +227,27 @@ def exact_cost(x):
     return x
 
 
+_COST_OBJECTS = {}
+
+
 def typed_cost(x, flags):
+    """The cost value in the requested numeric type.  The *same object* is
+    handed out for the same (type, value) throughout the process -- as a
+    caller does who creates its cost parameters once and builds many
+    schedules from them: a library that updates a mutable cost (a 0-d array)
+    in place then feeds its own damage to the next construction."""
     from fractions import Fraction
     v = exact_cost(x)
-    if "cF" in flags:
-        return Fraction(v)
-    import numpy
-    if "cN" in flags:
-        return numpy.float64(float(v))
-    if "cA" in flags:
-        return numpy.array(float(v))
-    return v
+    kind = next((f for f in ("cF", "cN", "cA") if f in flags), None)
+    if kind is None:
+        return v
+    key = (kind, v)
+    if key not in _COST_OBJECTS:
+        import numpy
+        _COST_OBJECTS[key] = (Fraction(v) if kind == "cF" else
+                              numpy.float64(float(v)) if kind == "cN" else
+                              numpy.array(float(v)))
+    return _COST_OBJECTS[key]
 
 
 def build_kw(cfg):
@@ -232,6 +332,7 @@ class Run:
         self.failures = []         # machine guard failures
         self.obs = []              # driver-level failures (C08/C09/C11/C17...)
         self.construct_exc = None
+        self.twin = None
         self.stream_exc = None     # (index, repr) exception in next()
         self.extra_next = []       # outcome of the post-exhaustion next() calls
         self.pass_slices = []      # (start, end) indices of each adjoint pass
@@ -262,6 +363,13 @@ def drive(cfg, observers=True, post_calls=3):
     N = cfg.N
     info = class_info(cfg)
     try:
+        if "twin" in cfg.flags():
+            run.twin = build(cfg)
+            try:
+                with common.quiet():
+                    next(run.twin)
+            except Exception:  # noqa: BLE001
+                pass
         sched = build(cfg)
     except Exception as e:  # noqa: BLE001
         run.construct_exc = f"{type(e).__name__}: {e}"
@@ -541,7 +649,7 @@ COSTS_ALL = [
     (1, 2.0 ** 31, 2, 2),                                   # ub dominates
     (2.0 ** 31, 1, 2, 2),                                   # uf dominates
 ]
-COSTS_QUICK = [COSTS_ALL[i] for i in (0, 1, 3, 4, 5, 6, 7, 10, 11, 14, 16, 18,
+COSTS_QUICK = [COSTS_ALL[i] for i in (0, 1, 3, 4, 5, 6, 7, 10, 11, 12, 14, 16, 18,
                                       20, 21)]
 
 
@@ -683,6 +791,48 @@ def box_large(tier):
         out.append(Config("HRevolve", (1, 1) + d, n, 1, "array0"))
         out.append(Config("DiskRevolve", (1,) + d, n, 1, "array0"))
         out.append(Config("PeriodicDiskRevolve", (1,) + d, n, 1, "array0"))
+    # ... and every class through a trivial user subclass
+    for n in (3, 12):
+        out.append(Config("Multistage", (2, 1, "maximum"), n, 1, "sub"))
+        out.append(Config("Mixed", (2, "DISK"), n, 1, "sub"))
+        out.append(Config("Mixed", (2, "RAM"), n, 1, "sub"))
+        out.append(Config("TwoLevel", (3, 1, "RAM", "maximum"), n, 2, "sub"))
+        out.append(Config("TwoLevel", (3, 1, "DISK", "revolve"), n, 2, "sub"))
+        out.append(Config("Revolve", (2,) + d, n, 1, "sub"))
+        out.append(Config("HRevolve", (1, 1) + d, n, 1, "sub"))
+        out.append(Config("HRevolve", (1, 0) + d, n, 1, "sub"))
+        out.append(Config("DiskRevolve", (1,) + d, n, 1, "sub"))
+        out.append(Config("PeriodicDiskRevolve", (1,) + d, n, 1, "sub"))
+        out.append(Config("SingleDiskCopy", (), n, 2, "sub"))
+        out.append(Config("SingleDiskMove", (), n, 1, "sub"))
+        out.append(Config("SingleMemory", (), n, 2, "sub"))
+        out.append(Config("NoneSchedule", (), n, 1, "sub"))
+        # ... two equal live objects of such a subclass
+        out.append(Config("Multistage", (2, 1, "maximum"), n, 1, "sub,twin"))
+        out.append(Config("Mixed", (2, "DISK"), n, 1, "sub,twin"))
+        out.append(Config("TwoLevel", (3, 1, "RAM", "maximum"), n, 2, "sub,twin"))
+        out.append(Config("Revolve", (2,) + d, n, 1, "sub,twin"))
+        out.append(Config("HRevolve", (1, 1) + d, n, 1, "sub,twin"))
+        out.append(Config("DiskRevolve", (1,) + d, n, 1, "sub,twin"))
+        out.append(Config("PeriodicDiskRevolve", (1,) + d, n, 1, "sub,twin"))
+        out.append(Config("SingleDiskCopy", (), n, 2, "sub,twin"))
+        out.append(Config("SingleDiskMove", (), n, 1, "sub,twin"))
+        out.append(Config("SingleMemory", (), n, 2, "sub,twin"))
+    # ... the documented base class of the Revolve family used directly
+    for n in (3, 7, 12):
+        for rd_ in ((1, 1), (2, 1), (1, 2)):
+            out.append(Config("HRevolve", rd_ + d, n, 1, "base"))
+        out.append(Config("HRevolve", (1, 1, 1, 1, 0, 0), n, 1, "base"))
+    # ... long blocks with a two-digit number of units (string-built keys,
+    # digit-count coincidences: (21, 5) and (2, 15) both read "215")
+    for per, bs in ((1000, 14), (1000, 15), (1000, 16), (1000, 24),
+                    (817, 14), (1500, 16), (1500, 21)):
+        out.append(Config("TwoLevel", (per, bs, "RAM", "maximum"), per, 1))
+    out.append(Config("TwoLevel", (1000, 15, "DISK", "revolve"), 1000, 1))
+    out.append(Config("Multistage", (0, 15, "maximum"), 1000))
+    out.append(Config("Multistage", (3, 12, "maximum"), 1000))
+    out.append(Config("Multistage", (0, 21, "revolve"), 1500))
+    out.append(Config("Mixed", (15, "DISK"), 1000))
     # many adjoint calculations on one object ("arbitrarily many")
     many = 1300 if tier == "quick" else 3500
     out.append(Config("SingleMemory", (), 1, many))
